@@ -20,7 +20,7 @@ from elementpath.sequences import xlist
 from elementpath.helpers import split_function_test
 from elementpath.sequence_types import match_sequence_type
 from elementpath.xpath_context import XPathSchemaContext
-from .functions import XPathFunction
+from .functions import XPathFunction, COMMENTS_LOOKAHEAD
 
 
 class MapKeysView(KeysView[Optional[ta.AtomicType]]):
@@ -80,7 +80,7 @@ class XPathMap(XPathFunction):
     """
     symbol = 'map'
     label = 'map'
-    pattern = r'(?<!\$)\bmap(?=\s*(?:\(\:.*\:\))?\s*\{(?!\:))'
+    pattern = rf'(?<!\$)\bmap(?={COMMENTS_LOOKAHEAD}\{{(?!\:))'
     _map: Optional[ta.MapDictType] = None
     _values: list[ta.XPathTokenType]  # a 2nd list of tokens is needed for map's values
     _nan_key: Union[bool, float] = False
